@@ -2,20 +2,33 @@
 //!
 //! E2 operation-sequence search on the *real* guards (DESIGN.md §3.1, §4 C13):
 //!
-//! * `guard-slice`, `guard-single`: every buffer of length 0..=3 over a 4-colour set (resp. every
-//!   single colour of the set), original type U in {Srgb<f32>, Hsl<f32>, Lab<f32>, Srgba<f32>,
-//!   Srgb<f64>}, four layout-compatible target types per U that form a clique of conversions with
-//!   U; ALL sequences of guard operations up to depth D (5 quick / 6 thorough) are explored
-//!   breadth first. A sequence is executed by rebuilding the buffer and replaying it on the real
-//!   `FromColorMutGuard` / `FromColorUnclampedMutGuard` (held in a macro-generated enum because
-//!   every step changes the guard's type). Merged mode: canonical state = (typestate, buffer
-//!   bits); a state already reached at a smaller-or-equal depth is not expanded again (sound:
-//!   the guard is `repr(transparent)` over `Option<&mut T>`, it holds nothing but the borrow).
-//!   Unmerged mode: every sequence up to a smaller depth, no dedup, every step compared; its set
-//!   of reachable canonical states must equal the merged one.
+//! * `guard-slice`, `guard-single`: every buffer of length 0..=3 over a 4-colour set (in range,
+//!   boundary, out of gamut, grey) resp. every single colour of the set (`FromColorMut for C` on
+//!   `&mut C`); original type U in {Srgb<f32>, Hsl<f32>, Lab<f32>, Srgba<f32>, Srgb<f64>}; five
+//!   layout-compatible target types per U that form a clique of conversions with U. ALL sequences
+//!   of operations {into_color_mut<T>, into_color_unclamped_mut<T>, deref, mutate(i) through
+//!   DerefMut, then_into_color_mut<C>, then_into_color_unclamped_mut<C>, into_unclamped_guard /
+//!   into_clamped_guard, restore, drop, mem::forget} up to depth D (5 quick / 6 thorough) are
+//!   explored breadth first. A sequence is executed by rebuilding the buffer (with a sentinel
+//!   element on either side) and replaying it on the real `FromColorMutGuard` /
+//!   `FromColorUnclampedMutGuard`, held in a macro-generated enum because every step changes the
+//!   guard's type. After restore/drop/forget the buffer is an ordinary `[U]` again (after forget:
+//!   with the bits of the converted colours) and the sequence may go on.
+//!   Merged mode: canonical state = (typestate, buffer bits) as OBSERVED on the real code; a
+//!   state already reached at a smaller-or-equal depth is not expanded again (sound: the guards
+//!   are `repr(transparent)` over `Option<&mut T>`, they hold nothing but the borrow). For every
+//!   edge the replay must pass through the parent state again bit for bit, and the state after
+//!   the new operation must be what the reference model predicts from the parent state.
+//!   Unmerged mode: every sequence up to a smaller depth (3 quick / 4 thorough), no dedup, every
+//!   step of every sequence compared; its set of reachable canonical states must equal the
+//!   merged one (otherwise: machinery failure).
 //! * `vec`, `box`: the one-shot owning forms `Vec<T>::from_color(Vec<U>)`, `from_color_unclamped`,
-//!   `into_color`, `cast::map_vec_in_place` / `map_slice_box_in_place`, every (len 0..=4,
-//!   capacity len..=len+3) shape, every chain of up to 3 (thorough 4) of them.
+//!   `into_color`, `cast::map_vec_in_place` / `map_slice_box_in_place` (with a call-counting
+//!   closure), every (len 0..=4, capacity len..=len+3 read back from the real Vec) shape, every
+//!   chain of up to 3 (thorough 4) of them over U and its five targets: same pointer, length and
+//!   capacity after every step, elements equal to the ordinary per-element conversion.
+//! * `miri` (thorough only; `C13_NO_MIRI=1` skips it with a coverage warning): the same executor
+//!   at a smaller bound under `cargo +nightly miri run --offline`, 15 processes in parallel.
 //!
 //! Reference model: a plain list of component arrays (as bit patterns) + a type tag. Every
 //! converting operation maps each element with the ORDINARY out-of-place conversion
@@ -32,8 +45,11 @@
 //! "equal to converting the current contents back in a single step"; the flavour of that step is
 //! the guard's.
 //!
-//! Comparison is bit for bit, except that every NaN counts as the same value (payload/sign of a
-//! NaN produced by the same arithmetic may legitimately depend on how a call site was compiled).
+//! Comparison is bit for bit, except that every NaN counts as the same value and -0.0 == +0.0
+//! (see `same_values`: `f32::max`/`min`, which palette's clamps use, are documented as not
+//! deterministic regarding signed zeros, so two call sites of the same conversion may differ in
+//! the sign of a zero — observed once at depth 6, Hsl -> Hwb with whiteness -0.0). The model
+//! therefore always predicts the next state from the state observed on the real code.
 use palette::cast::{self, ArrayCast};
 use palette::convert::{FromColor, FromColorMutGuard, FromColorUnclamped, FromColorUnclampedMutGuard, IntoColor, IntoColorMut, IntoColorUnclampedMut};
 use palette::encoding::Srgb as S;
@@ -1015,7 +1031,11 @@ fn observed_key(sink: &Sink, k: usize) -> Key {
 
 fn guard_violation(c: &mut Collector, f: &Fam, buf: &[u8], ops: &[Op], k: usize, what: &str, flav_before: u8, step: Option<(&Step, &[u64])>, m: Option<&Key>, mode: &str, extra: Option<String>) {
     let site = if k == 0 { "initial-buffer".to_string() } else { op_site(ops[k - 1], flav_before) };
-    let sig = format!("C13/guard-{}/{}/{}/{}", f.kind, f.name, site, what);
+    // The in-place API is blanket-generic over the colour types (no per-type code: anything
+    // type-specific is the ordinary conversion, which is the oracle here), so the original
+    // type is not part of the signature - one defect would otherwise give 5x the signatures.
+    // The family is in the case.
+    let sig = format!("C13/guard-{}/{}/{}", f.kind, site, what);
     c.violation(&sig, 1.0, || {
         json!({
             "sub": "guard", "family": f.name, "kind": f.kind, "mode": mode,
@@ -1156,7 +1176,7 @@ fn explore_merged(c: &mut Collector, ctx: &Ctx, f: &Fam, buf: &[u8], depth: usiz
                 let kp = d;
                 if observed_key(&sink, kp) != *node {
                     let sp = sink.steps[kp];
-                    let sig = format!("C13/guard-{}/{}/replay-not-reproducible", f.kind, f.name);
+                    let sig = format!("C13/guard-{}/replay-not-reproducible", f.kind);
                     c.violation(&sig, 1.0, || json!({"sub": "guard", "family": f.name, "kind": f.kind, "mode": "merged", "buffer": buf, "ops": render_ops(f, p2.ops()), "step": kp, "what": "replay-not-reproducible", "observed": state_json(f, sp.tag, sp.flav, sink.step_bits(kp)), "expected": state_json(f, node.tag, node.flav, node.bits())}));
                     continue;
                 }
@@ -1384,7 +1404,7 @@ fn owned_buffers() -> Vec<Vec<u8>> {
 
 fn owned_violation(c: &mut Collector, f: &Fam, cont: &str, buf: &[u8], extra: usize, ops: &[(u8, u8)], k: usize, what: &str, observed: Value, expected: Value) {
     let site = if k == 0 { "build".to_string() } else { format!("{}::{}", cont, HOW_NAMES[ops[k - 1].1 as usize]) };
-    let sig = format!("C13/{}/{}/{}/{}", cont, f.name, site, what);
+    let sig = format!("C13/{}/{}/{}", cont, site, what);
     c.violation(&sig, 1.0, || {
         json!({"sub": cont, "family": f.name, "buffer": buf, "extra_capacity": extra,
                "ops": ops.iter().map(|&(t, h)| format!("{}:{}", HOW_NAMES[h as usize], f.types[t as usize])).collect::<Vec<_>>(),
@@ -1450,8 +1470,8 @@ fn owned_run(c: &mut Collector, f: &Fam, cont: &str, buf: &[u8], extra: usize, o
         if let Some(what) = what {
             owned_violation(
                 c, f, cont, buf, extra, ops, k, what,
-                json!({"type": f.types[st.tag as usize], "ptr": format!("{:#x}", st.ptr), "len": st.len, "capacity": st.cap, "closure_calls": st.calls, "bits": hexbits(f, sb), "values": floats(f, sb)}),
-                json!({"type": f.types[tag as usize], "ptr": format!("{:#x}", s0.ptr), "len": s0.len, "capacity": s0.cap, "bits": hexbits(f, &bits), "values": floats(f, &bits)}),
+                json!({"type": f.types[st.tag as usize], "address": if st.ptr == s0.ptr { "the initial allocation" } else if st.ptr <= 64 { "a different one (dangling)" } else { "a different allocation" }, "len": st.len, "capacity": st.cap, "closure_calls": st.calls, "bits": hexbits(f, sb), "values": floats(f, sb)}),
+                json!({"type": f.types[tag as usize], "address": "the initial allocation", "len": s0.len, "capacity": s0.cap, "bits": hexbits(f, &bits), "values": floats(f, &bits)}),
             );
             return false;
         }
@@ -1819,10 +1839,11 @@ fn miri_report(c: &mut Collector, fams: &[Fam], stdout: &str, stderr: &str) -> b
         (Some(mut case), false) => {
             let kind = case["sub"].as_str().unwrap_or("?").to_string();
             let fam = case["family"].as_str().unwrap_or("?").to_string();
-            let what = if mism.is_some() { "flags".to_string() } else { scrub(ub) };
+            let what = if mism.is_some() { "flags".to_string() } else { scrub(ub.trim_start_matches("error: ")).chars().take(100).collect() };
             case["observed"] = json!({"miri": ub, "mismatch": mism, "stderr_tail": stderr.lines().rev().take(25).collect::<Vec<_>>().into_iter().rev().collect::<Vec<_>>()});
             case["expected"] = json!("no undefined behaviour, same address/length, neighbours untouched");
-            c.violation(&format!("C13/miri/{kind}/{fam}/{what}"), 1.0, || case);
+            let _ = fam;
+            c.violation(&format!("C13/miri/{kind}/{what}"), 1.0, || case);
             true
         }
         _ => false,
@@ -1842,6 +1863,12 @@ fn miri_check(ctx: &Ctx, total: &mut Collector, fams: &[Fam]) {
     let outs = pv::par::map_chunks(njobs, |job| run_miri(&ctx.root, &["miri-inner".to_string(), job.to_string(), njobs.to_string()]));
     let mut c = Collector::new();
     let (mut cases, mut opsn, mut ok_jobs) = (0u64, 0u64, 0usize);
+    // report failing jobs simplest case first (shortest buffer, then fewest operations)
+    let mut outs = outs;
+    outs.sort_by_key(|o| match o {
+        Ok((false, stdout, _)) => stdout.lines().rev().find(|l| l.starts_with("CASE ")).and_then(|l| parse_case_line(fams, l)).map(|c| (c["buffer"].as_array().map_or(0, |a| a.len()), c["ops"].as_array().map_or(0, |a| a.len()))).unwrap_or((0, 0)),
+        _ => (0, 0),
+    });
     for o in outs {
         match o {
             Err(e) => {
